@@ -32,8 +32,8 @@ def digests(props, runs, seed, tier):
         eng = engines.engine_for(p)
         known = eng.load_known()
         for r in runs:
-            if p == 'C04' and r < 41:
-                r = r + 41          # skip the (slow) enumeration corpus here; histories with faults are sampled instead
+            if p == 'C04' and r < 47:
+                r = r + 47          # skip the (slow) enumeration corpus here; histories with faults are sampled instead
             rec, res = eng.run_generated(p, seed, r, tier, known=known)
             W = getattr(res, 'world', None) or getattr(res, 'W', None)
             state = []
